@@ -47,6 +47,26 @@ Proof.
     destruct (IH _ _ H) as (-> & Ho). rewrite <- app_assoc. split; [reflexivity|]. intros x [<-|Hx]; [exact Ey|exact (Ho x Hx)].
 Qed.
 
+(* partitions removed while the visit is in progress are skipped; every other matching partition is in the result *)
+Lemma get_journals_r_some {A : Type} (removed opens : A -> bool) (maxl : nat) snap l :
+  get_journals_r removed opens maxl snap = Some l ->
+  l = filter (fun x => negb (removed x)) snap /\ (forall x, In x l -> opens x = true) /\
+  (forall x, In x snap -> removed x = false -> In x l).
+Proof.
+  unfold get_journals_r, get_journals_o. intros H. destruct (get_journals_of_some _ _ _ _ _ H) as (E & Ho). cbn [app] in E.
+  split; [exact E|]. split; [rewrite E; exact Ho|]. intros x Hi Hr. rewrite E. apply filter_In. split; [exact Hi|]. rewrite Hr. reflexivity.
+Qed.
+Lemma get_journals_r_all {A : Type} (removed opens : A -> bool) (maxl : nat) snap : (0 < maxl)%nat ->
+  (forall x, In x snap -> removed x = false -> opens x = true) ->
+  (length (filter (fun x => negb (removed x)) snap) < maxl)%nat ->
+  get_journals_r removed opens maxl snap = Some (filter (fun x => negb (removed x)) snap).
+Proof.
+  intros Hm Ho Hl. unfold get_journals_r, get_journals_o. rewrite get_journals_of_all.
+  - change (get_journals_f maxl ?m []) with (get_journals maxl m). rewrite get_journals_spec by exact Hm.
+    destruct (Nat.ltb_spec (length (filter (fun x => negb (removed x)) snap)) maxl); [reflexivity|lia].
+  - intros x Hx. apply filter_In in Hx. destruct Hx as (Hi & Hr). apply Ho; [exact Hi|]. destruct (removed x); [discriminate|reflexivity].
+Qed.
+
 Lemma new_cursor_o_all opens srcs f p : (forall s, In s srcs -> opens s = true) -> new_cursor_o opens srcs f p = new_cursor srcs f p.
 Proof. intros H. unfold new_cursor_o, new_cursor, get_journals_o, get_journals. rewrite get_journals_of_all by exact H. reflexivity. Qed.
 Lemma new_cursor_o_fail opens srcs f p s : In s srcs -> opens s = false -> new_cursor_o opens srcs f p = None.
